@@ -317,7 +317,8 @@ class TrajectoryCalc:
             zero_finding_error = math.fabs(height - height_at_zero)
             if zero_finding_error > _cZeroFindingAccuracy:
                 # Adjust barrel elevation to close height at zero distance
-                self.barrel_elevation -= (height - height_at_zero) / zero_distance
+                # (d height / d elevation = distance / cos^2(elevation): scale the correction accordingly)
+                self.barrel_elevation -= (height - height_at_zero) / zero_distance * math.cos(self.barrel_elevation) ** 2
             else:  # last barrel_elevation hit zero!
                 break
             iterations_count += 1
